@@ -82,6 +82,59 @@ def run(ctx):
             facts_at[id(n)] = facts
 
         GuardWalker(on_expr=on_expr).walk_function(main.node)
+
+        def exempt_beyond_update(conds):
+            """
+            The refusal may be skipped only for invocations in which gen does not generate: gen's own first arm
+            (`phase > 0 and emit_name in <SQLalchemy kinds>`: update the file phase 0 wrote, then return). `conds` are the
+            extra (condition text, truth) pairs under which main refuses; both sides are folded over the finite domain
+            phase in 0..3 x the CLI's emit kinds. None when every exempted invocation is an updating one, else a message.
+            """
+            from ..fold import fold as _fold
+
+            arm = None
+            for st in gen.node.body:
+                if isinstance(st, ast.If) and {"phase", "emit_name"} <= {x.id for x in ast.walk(st.test) if isinstance(x, ast.Name)}:
+                    arm = st
+                    break
+            if arm is None:
+                return "gen no longer has a phase arm, yet main skips the refusal under {}".format([c_[0] for c_ in conds]) if conds else None
+
+            def ends(stmts):
+                if not stmts:
+                    return False
+                last = stmts[-1]
+                if isinstance(last, (ast.Return, ast.Raise)):
+                    return True
+                if isinstance(last, ast.If):
+                    return ends(last.body) and ends(last.orelse)
+                return False
+
+            if not ends(arm.body):
+                return "gen's phase arm no longer returns on every path: a later phase falls through to generation"
+            kinds = emit_kinds(ctx, env)[0]
+            for p_ in (0, 1, 2, 3):
+                for k_ in kinds:
+                    def res(chain, _p=p_, _k=k_):
+                        if chain == ["args", "phase"]:
+                            return _p
+                        if chain == ["args", "emit_name"]:
+                            return _k
+                        raise Unknown(".".join(chain))
+
+                    try:
+                        refuses = all(bool(_fold(ast.parse(t_, mode="eval").body, {}, res)) is v_ for t_, v_ in conds)
+                        updates = bool(_fold(arm.test, {"phase": p_, "emit_name": k_}, lambda ch: (_ for _ in ()).throw(Unknown(".".join(ch)))))
+                    except Unknown as x_:
+                        return "cannot evaluate the refusal's extra condition(s) {} over (phase, emit kind): {}".format([c_[0] for c_ in conds], x_)
+                    if not refuses and not updates:
+                        return (
+                            "with --phase {} --emit {} main skips the refuse-if-exists test ({}), but gen only treats a later phase as "
+                            "an update for its own arm `{}`: for this invocation it falls through to generation and appends to the "
+                            "existing file".format(p_, k_, " and ".join(c_[0] for c_ in conds), short(arm.test, 70))
+                        )
+            return None
+
         gen_calls = [
             n
             for n in iter_own(main.node)
@@ -99,11 +152,12 @@ def run(ctx):
                 texts = [norm(x) for x in conj]
                 has_isfile = any("isfile" in t and "output_filename" in t for t in texts)
                 others = [t for t in texts if not ("isfile" in t and "output_filename" in t)]
-                if has_isfile and all(t == "args.phase == 0" for t in others):
-                    ok, why = True, ""
-                    break
                 if has_isfile:
-                    why = "the refusal test has extra conjuncts that weaken it: {}".format(others)
+                    bad_ = exempt_beyond_update([(t, True) for t in others])
+                    if bad_ is None:
+                        ok, why = True, ""
+                        break
+                    why = bad_
             if not ok:
                 # the refusal extracted into a helper: a statement `h(<output file>)` before the call to gen, where h
                 # raises when its argument is an existing file; it may be skipped only when `args.phase == 0` is false
@@ -125,10 +179,11 @@ def run(ctx):
                         continue
                     fh = facts_at.get(id(hc)) or {}
                     extra = {t: v for t, v in fh.items() if facts.get(t) != v}
-                    if all(t == "args.phase == 0" and v is True for t, v in extra.items()):
+                    bad_ = exempt_beyond_update(sorted(extra.items()))
+                    if bad_ is None:
                         ok, why = True, ""
                         break
-                    why = "the refusal helper {}() is only reached when {}".format(h.node.name, sorted(extra))
+                    why = "the refusal helper {}() is only reached when {}: {}".format(h.node.name, sorted(extra), bad_)
             # the true arm must raise: guaranteed by the fact being False after an `if` that terminates
             ctx.ob("C19.guard", main, "gen(...) is dominated by the refuse-if-exists test", ok, why, line=c.lineno)
         # the guard's true arm raises (not e.g. prints and continues)
